@@ -267,6 +267,58 @@ pub fn family_sliders(out: &mut Vec<Desc>) {
     }
 }
 
+/// crowded boards (33 to 60 men): both kings in opposite corners behind their own guards, everything else filled with
+/// pawns and line pieces of either colour (no knight can reach a king, every line to a king is blocked by a guard)
+pub fn family_crowded(rng: &mut Rng, n: usize, out: &mut Vec<Desc>) {
+    for i in 0..n {
+        let mut d = Desc::empty();
+        d.pl[0] = b'K'; d.pl[1] = b'N'; d.pl[8] = b'P'; d.pl[9] = b'P';
+        d.pl[63] = b'k'; d.pl[62] = b'n'; d.pl[55] = b'p'; d.pl[54] = b'p';
+        let dens = 60 + 5 * (i % 8) as u64; // per cent
+        for s in 0..64usize {
+            if d.pl[s] != b'.' || !rng.chance(dens, 100) { continue }
+            // squares from which a pawn would attack a king are left to line pieces
+            let back = s / 8 == 0 || s / 8 == 7;
+            let t = if back || rng.chance(1, 3) { *rng.pick(b"BRQ") } else { b'P' };
+            d.pl[s] = if rng.chance(1, 2) { t } else { t.to_ascii_lowercase() };
+        }
+        d.stm = if i % 2 == 0 { b'w' } else { b'b' };
+        out.push(d);
+    }
+}
+
+/// two line pieces of one kind and colour on one line with an enemy piece strictly between them (both can capture it),
+/// and the same with a free square in between as the common destination
+pub fn family_collinear(out: &mut Vec<Desc>) {
+    for k in 0..64usize {
+        for (dr, df) in [(0i32, 1i32), (1, 0), (1, 1), (1, -1)] {
+            let mut line = vec![k];
+            let (mut r, mut f) = ((k / 8) as i32 + dr, (k % 8) as i32 + df);
+            while (0..8).contains(&r) && (0..8).contains(&f) { line.push((r * 8 + f) as usize); r += dr; f += df }
+            if line.len() < 3 { continue }
+            let diag = dr != 0 && df != 0;
+            for j in 1..line.len() - 1 {
+                for e in j + 1..line.len() {
+                    for t in if diag { [b'B', b'Q'] } else { [b'R', b'Q'] } {
+                        for mid in [b'n', b'.'] {
+                            let mut d = Desc::empty();
+                            d.pl[line[0]] = t; d.pl[line[e]] = t; d.pl[line[j]] = mid;
+                            // kings off every line through the three squares
+                            let safe = |s: usize, d: &Desc| d.pl[s] == b'.' && line.iter().all(|&x| { let (a, b) = ((s / 8) as i32 - (x / 8) as i32, (s % 8) as i32 - (x % 8) as i32); a != 0 && b != 0 && a.abs() != b.abs() });
+                            let wk = match (0..64).find(|&s| safe(s, &d)) { Some(x) => x, None => continue };
+                            d.pl[wk] = b'K';
+                            let bk = (0..64).rev().find(|&s| safe(s, &d) && !adjacent(s, wk));
+                            if let Some(bk) = bk { d.pl[bk] = b'k' } else { continue }
+                            out.push(d.clone());
+                            out.push(d.flipped());
+                        }
+                    }
+                }
+            }
+        }
+    }
+}
+
 /// castling: rights x one extra piece of either colour on any square
 pub fn family_castling(out: &mut Vec<Desc>) {
     for rights in 1..4u8 {
